@@ -22,6 +22,10 @@ MUTANTS = {
     "shard-drop-remainder-sep": ("filehashstore.py", [("            + [checksum[self.depth * self.width :]]", "            + [checksum[self.depth * self.width + 1 :]]")], ["C15"]),
     "meta-docname-sep": ("filehashstore.py", [("        pid_doc = self._computehash(pid + checked_format_id)\n\n        sync_begin_debug_msg = (\n            f\" Adding pid", "        pid_doc = self._computehash(pid + \"-\" + checked_format_id)\n\n        sync_begin_debug_msg = (\n            f\" Adding pid")], ["C15", "C11"]),
     "cidrefs-no-newline": ("filehashstore.py", [("                    if ref_type == \"cid\":\n                        tmp_cid_ref_file.write(ref_id + \"\\n\")", "                    if ref_type == \"cid\":\n                        tmp_cid_ref_file.write(ref_id)")], ["C15", "C05"]),
+    "cid-release-no-notify": ("filehashstore.py", [("                self.object_locked_cids_th.remove(cid)\n                self.object_cid_condition_th.notify()", "                self.object_locked_cids_th.remove(cid)")], ["C08"]),
+    "store-leaks-pid-lock-on-error": ("filehashstore.py", [("                    self.fhs_logger.info(\"Successfully stored object for pid: %s\", pid)\n                finally:\n                    # Release pid\n                    self._release_object_locked_pids(pid)", "                    self.fhs_logger.info(\"Successfully stored object for pid: %s\", pid)\n                    self._release_object_locked_pids(pid)\n                finally:\n                    pass")], ["C08"]),
+    "meta-overwrite-in-place": ("filehashstore.py", [("                shutil.move(metadata_tmp, full_path)\n                self.fhs_logger.debug(\"Successfully put metadata for pid: %s\", pid)", "                with open(full_path, \"wb\") as _dst, open(metadata_tmp, \"rb\") as _src:\n                    for _chunk in iter(lambda: _src.read(4), b\"\"):\n                        _dst.write(_chunk)\n                os.remove(metadata_tmp)\n                self.fhs_logger.debug(\"Successfully put metadata for pid: %s\", pid)")], ["C09", "C12"]),
+    "untag-swallow-keeps-pidref": ("filehashstore.py", [("                self._untag_object(pid, cid)\n                raise ue", "                raise ue")], ["C13"]),
 }
 
 
